@@ -18,6 +18,7 @@ type Frame struct {
 	Call      ssa.CallInstruction // call in the caller that created this frame (nil for the root)
 	Catch     bool                // vPanics marker: a panic unwinding to here yields true
 	AtStart   bool                // phis done, nothing else executed in this block yet
+	MemoKey   string              // non-empty: record the result of this pure call in State.Memo
 	Nat       *NativeDriver       // non-nil: an engine-native frame (Fn, Block are nil)
 	NatStep   int
 	NatAcc    Value
@@ -31,6 +32,7 @@ type State struct {
 	Heap   []Value       // objects with id >= W.nBase, indexed by id-W.nBase
 	Over   map[int]Value // overrides of base objects (id < W.nBase)
 	PC     []*smt.Term
+	Memo   map[string]Value // results of pure stdlib calls on identical arguments
 	Model  []uint64 // an assignment satisfying PC, nil if not known
 	Steps  int
 	UnknownSince int
@@ -65,6 +67,12 @@ func (s *State) clone() *State {
 	}
 	n.PC = append([]*smt.Term(nil), s.PC...)
 	n.Model = s.Model
+	if len(s.Memo) > 0 {
+		n.Memo = make(map[string]Value, len(s.Memo))
+		for k, v := range s.Memo {
+			n.Memo[k] = v
+		}
+	}
 	return n
 }
 
@@ -695,6 +703,14 @@ func tryMerge(ctx *smt.Ctx, a, b *State) *State {
 	n.Model = a.Model
 	if n.Model == nil {
 		n.Model = b.Model
+	}
+	for k, va := range a.Memo {
+		if vb, ok := b.Memo[k]; ok && identical(va, vb) {
+			if n.Memo == nil {
+				n.Memo = map[string]Value{}
+			}
+			n.Memo[k] = va
+		}
 	}
 	return n
 }
